@@ -77,6 +77,20 @@ class EngineError(BaseException):
     """Failure of the checker itself (exit 3): never a verdict about the code."""
 
 
+def scenario_bug(exc):
+    """A NameError / UnboundLocalError / ImportError raised by the text of a contract file itself (innermost frame under /verif)
+    is a defect of the checker, never a statement about the code under contract."""
+    if not isinstance(exc, (NameError, ImportError)):
+        return None
+    tb, last = exc.__traceback__, None
+    while tb is not None:
+        last, tb = tb, tb.tb_next
+    where = last.tb_frame.f_code.co_filename if last is not None else ""
+    if where.startswith(_VERIF_ROOT):
+        return "%s: %s (raised at %s:%d)" % (type(exc).__name__, exc, where, last.tb_lineno)
+    return None
+
+
 class InfeasiblePath(BaseException):
     """Raised by assume() when the path condition became unsatisfiable (BaseException: not caught by code under test)."""
 
